@@ -12,6 +12,7 @@ import (
 	"mime/multipart"
 	"net/http"
 	"net/url"
+	"os"
 	"path/filepath"
 	"sort"
 	"strings"
@@ -100,6 +101,11 @@ type File struct {
 	Declared string   `json:"declared,omitempty"` // "": the source has no ContentType() method
 	Data     Content  `json:"data"`
 	Script   Script   `json:"script"`
+	// Source: "" a plain reader, "seeker" a reader that also implements io.Seeker, "osfile" a real *os.File.
+	// Skip bytes of Data were consumed by the caller before the source was handed over (a preamble, a resumed
+	// upload): the content of the file is what is left in the source.
+	Source string `json:"source,omitempty"`
+	Skip   int    `json:"skip,omitempty"`
 }
 
 // FileField is one file field with its files (one SetFileParam call).
@@ -207,13 +213,60 @@ func Check(c Case) *kit.Violation {
 		src                *stream
 	}
 	var wantFiles []wantFile
+	tmpDir := ""
 	fileParams := make([][]runtime.NamedReadCloser, len(c.Files))
 	for i, ff := range c.Files {
 		for _, f := range ff.Files {
 			content := f.Data.Bytes()
-			s := &stream{data: content, sc: f.Script}
+			skip := f.Skip
+			if skip > len(content) {
+				skip = len(content)
+			}
+			s := &stream{data: content, sc: f.Script, off: skip}
 			nf := namedFile{s: s, name: string(f.Name)}
+			content = content[skip:]
 			ct := f.Declared
+			if f.Source == "osfile" {
+				if tmpDir == "" {
+					var err error
+					if tmpDir, err = os.MkdirTemp("", "c11up"); err != nil {
+						return kit.Failf("harness: %v", err)
+					}
+					defer os.RemoveAll(tmpDir)
+				}
+				of, err := os.CreateTemp(tmpDir, "up*"+filepath.Ext(string(f.Name)))
+				if err != nil {
+					return kit.Failf("harness: %v", err)
+				}
+				if _, err = of.Write(f.Data.Bytes()); err == nil {
+					_, err = of.Seek(int64(skip), io.SeekStart)
+				}
+				if err != nil {
+					return kit.Failf("harness: %v", err)
+				}
+				defer of.Close()
+				fileParams[i] = append(fileParams[i], of)
+				n := len(content)
+				if n > 512 {
+					n = 512
+				}
+				wantFiles = append(wantFiles, wantFile{string(ff.Name), filepath.Base(of.Name()), http.DetectContentType(content[:n]), content, s})
+				continue
+			}
+			if f.Source == "seeker" {
+				if ct == "" {
+					fileParams[i] = append(fileParams[i], seekFile{nf})
+					n := len(content)
+					if n > 512 {
+						n = 512
+					}
+					ct = http.DetectContentType(content[:n])
+				} else {
+					fileParams[i] = append(fileParams[i], typedSeekFile{seekFile{nf}, f.Declared})
+				}
+				wantFiles = append(wantFiles, wantFile{string(ff.Name), filepath.Base(string(f.Name)), ct, content, s})
+				continue
+			}
 			if ct == "" {
 				fileParams[i] = append(fileParams[i], nf)
 				n := len(content)
